@@ -45,13 +45,19 @@ struct Sim {
   Verdict online;                           // first online violation (e.g. double callback)
   std::string tmpdir;
   size_t steps = 0, drain_steps = 0; bool stuck = false; bool budget_exhausted = false; bool astronomic = false;
-  size_t c07_checks = 0, c07_multi = 0;
+  size_t c07_checks = 0, c07_multi = 0; size_t idle_spins = 0;
   std::vector<int64_t> reconfig_times;     // set_servers / reinit instants (cache must be empty afterwards)
   struct ServerSet { uint64_t ev; std::vector<std::string> list; }; std::vector<ServerSet> server_sets;   // configured lists over time (address strings as the library prints them)
   std::vector<uint64_t> reconfig_ticks; uint64_t tick = 0;   // logical order of events within one virtual instant
   struct TimeoutObs { int64_t t; long sec, usec; bool has; };
   std::vector<TimeoutObs> timeout_obs;
 
+  // C14: the one refused allocation (0 = none yet); position in the logical order and what was in flight then
+  bool c14 = false; uint64_t fault_tick = 0; size_t fault_pending = 0; bool fault_in_cancel = false; std::string fault_where;
+  // outermost-library-call tracking: the handling of a refused allocation lasts until the API call it happened in has returned
+  int lib_depth = 0; uint64_t fault_closed_tick = 0;
+  struct LibCall { Sim &s; explicit LibCall(Sim &x) : s(x) { s.lib_depth++; } ~LibCall() { if (--s.lib_depth == 0 && s.fault_tick && !s.fault_closed_tick) s.fault_closed_tick = ++s.tick; } };
+  void on_alloc_fault() { fault_tick = ++tick; fault_pending = 0; for (auto &kv : reqs) if (kv.second.started && kv.second.accepted && kv.second.calls == 0) fault_pending++; fault_in_cancel = in_cancel; }
   void violate(const std::string &sig, const std::string &detail) { if (online.ok) { online.ok = false; online.sig = sig; online.detail = detail; } }
 
   // ------------------------------------------------------------------ result extraction
@@ -156,6 +162,7 @@ struct Sim {
   Bytes req_addr(const Req &r) const { Bytes a; if (r.family == AF_INET6) { a = Bytes(16, '\0'); a[0] = (char)0xfd; a[1] = 0x77; a[14] = (char)((r.id >> 8) & 0xff); a[15] = (char)(r.id & 0xff); } else { a = Bytes{(char)172, (char)16, (char)((r.id >> 8) & 0xff), (char)(r.id & 0xff)}; } return a; }
   void start(Req &r) {
     if (!ch || destroyed) return;
+    LibCall lc(*this);
     r.started = true; r.t_start = w.now_us; r.tick_start = ++tick; r.tx_at_start = w.txs.size(); r.in_start = true;
     CbArg *arg = arg_for(r.id);
     int dnsclass = ARES_CLASS_IN;
@@ -195,10 +202,12 @@ struct Sim {
     bool outer = !in_cancel;
     std::vector<int> pend; for (auto &kv : reqs) if (kv.second.started && kv.second.accepted && kv.second.calls == 0) pend.push_back(kv.first);
     if (outer) { in_cancel = true; for (int id : pend) reqs[id].pending_at_cancel = true; }
+    uint64_t tick_before_cancel = tick;
+    LibCall lc(*this);
     ares_cancel(ch);
     if (outer) {
       in_cancel = false;
-      for (int id : pend) { Req &r = reqs[id]; if (r.calls == 0 && !r.in_start) violate("C01.pending-after-cancel", "request " + std::to_string(id) + " (" + r.kind + ") was pending when ares_cancel was called and has not completed when it returned"); else if (r.calls == 1 && r.status != ARES_ECANCELLED && r.t_end == w.now_us && !r.in_start) { r.status_at_cancel = r.status; } r.pending_at_cancel = false; }
+      for (int id : pend) { Req &r = reqs[id]; if (r.calls == 0 && !r.in_start && !(c14 && fault_tick > tick_before_cancel)) violate("C01.pending-after-cancel", "request " + std::to_string(id) + " (" + r.kind + ") was pending when ares_cancel was called and has not completed when it returned"); else if (r.calls == 1 && r.status != ARES_ECANCELLED && r.t_end == w.now_us && !r.in_start) { r.status_at_cancel = r.status; } r.pending_at_cancel = false; }
     }
   }
 
@@ -240,6 +249,7 @@ struct Sim {
     return true;
   }
   void apply_servers(const std::vector<std::string> &specs) {
+    LibCall lc(*this);
     std::string csv; w.servers.resize(std::max(w.servers.size(), specs.size()));
     size_t n = 0;
     for (auto &s : specs) { Addr a; if (!Addr::parse(s, a)) continue; if (n >= w.servers.size()) w.servers.resize(n + 1); w.servers[n].addr = a; if (w.servers[n].source.b[0] == 0) { Addr src; src.family = a.family; if (a.family == AF_INET) { src.b[0] = 192; src.b[1] = 168; src.b[2] = 1; src.b[3] = (unsigned char)(10 + n); } else { src.b[0] = 0xfd; src.b[1] = 0x01; src.b[15] = (unsigned char)(10 + n); } w.servers[n].source = src; } if (!csv.empty()) csv += ","; csv += a.str(); n++; }
@@ -247,7 +257,7 @@ struct Sim {
     if (ch) { int rc = ares_set_servers_ports_csv(ch, csv.c_str()); if (rc != ARES_SUCCESS) notes.push_back("set_servers failed"); char *got = ares_get_servers_csv(ch); notes.push_back("servers set to " + csv + " -> library reports " + (got ? got : "NULL"));
       // the configured set must be exactly what was given (order follows the failure sort, so compare as sets)
       std::set<std::string> want, have; { std::istringstream a(csv); std::string x; while (std::getline(a, x, ',')) want.insert(x); } if (got) { std::istringstream a(got); std::string x; while (std::getline(a, x, ',')) have.insert(x); }
-      if (rc == ARES_SUCCESS && !(opt.flags & ARES_FLAG_PRIMARY) && want != have) violate("C09.server-list-not-replaced", "set " + csv + " but the channel reports " + (got ? got : "NULL"));
+      if (rc == ARES_SUCCESS && got && !(opt.flags & ARES_FLAG_PRIMARY) && want != have) violate("C09.server-list-not-replaced", "set " + csv + " but the channel reports " + (got ? got : "NULL"));
       ares_free_string(got); }
   }
 
@@ -265,6 +275,7 @@ struct Sim {
   // one loop iteration; returns number of events handed to the library
   size_t step(bool allow_stale = false, size_t stale_pick = 0) {
     if (!ch || destroyed) return 0;
+    LibCall lc(*this);
     steps++;
     if (pending_write_flag) { pending_write_flag = false; ares_process_pending_write(ch); }
     std::map<int, std::pair<bool, bool>> watch; watched(watch);
@@ -334,7 +345,7 @@ struct Sim {
     if (budget > 20000) budget = 20000;
     while (pending() > 0 && drain_steps < budget + 2 * w.stream_bytes + 4 * w.short_writes + 4 * w.blocked_writes) {   // one-byte reads / short writes legitimately need a step per byte
       drain_steps++;
-      if (anything_ready()) { step(); continue; }
+      if (anything_ready()) { size_t c0 = w.calls.size(), a0 = activity(); step(); if (w.calls.size() != c0 || activity() != a0) continue; idle_spins++; }   // an event the library does nothing with: a real loop spins until the clock reaches the next deadline
       int64_t h = 0; bool has = timeout_hint(h); int64_t nd = w.next_delivery();
       if (!has && nd < 0) { stuck = true; break; }
       if (opt.c07) check_timeout_api();
@@ -351,6 +362,7 @@ struct Sim {
   void destroy() {
     if (!ch || destroyed) return;
     for (auto &kv : reqs) if (kv.second.started && kv.second.accepted && kv.second.calls == 0) kv.second.pending_at_destroy = true;
+    LibCall lc(*this);
     in_destroy = true; ares_destroy(ch); in_destroy = false; destroyed = true; ch = nullptr; w.chan = nullptr;
   }
 
